@@ -132,6 +132,15 @@ theorem C07_value_typed_error_never_succeeds (p : Program) (fn : Fn) (hmem : fn 
     (∀ x len, bodyRes p.ctx fn st ≠ .ok x len) ∧ exitKind p.ctx fn (p.ctx.beh fn.id (st.execCount fn.id)) ≠ .ok :=
   valErr_never_ok p fn hmem huniq hv st
 
+/-- ... and what its failing costs: a constructor whose function has such a result **always fails, is never marked as
+    called and writes to no cache** — so every demand runs it again (the retry half of C07 with nothing to wait for) -/
+theorem C07_value_typed_error_constructor_writes_nothing (p : Program) (fn : Fn) (hmem : fn ∈ p.fns)
+    (huniq : ∀ g ∈ p.fns, g.id = fn.id → g = fn) (hv : (forcedOf p.types fn).isSome = true) (hnd : p.cfg.dry = false)
+    (n : Nat) (node : CtorNode) (hfn : node.fn = fn) (args : List Val) (st : St) :
+    (ctorTail p.ctx n node args st).2.ctors = st.ctors ∧ (ctorTail p.ctx n node args st).2.scopes = st.scopes ∧
+    ∃ e, (ctorTail p.ctx n node args st).1 = .error e :=
+  valErr_ctorTail_writes_nothing p fn hmem huniq hv hnd n node hfn args st
+
 /-- ... and for whole programs: **nothing a function with a value-typed error result returns is ever handed to any user
     function** (as an argument or part of one, in any scope, through single values, groups, decorated values or
     parameter objects), **nor does it sit in any cache at the end** — in every history, none of its executions has a
@@ -203,4 +212,5 @@ example : veF ∈ veProg.fns ∧ (∀ g ∈ veProg.fns, g.id = veF.id → g = ve
 #print axioms C07_others_kept
 #print axioms C07_value_typed_error_never_succeeds
 #print axioms C07_value_typed_error_results_never_delivered
+#print axioms C07_value_typed_error_constructor_writes_nothing
 end Dig.C07
